@@ -30,3 +30,29 @@ func fragAll() []string { return append(append([]string{}, fragCore...), fragMor
 
 // byteAlpha: B, for shallow byte-exhaustive runs.
 var byteAlpha = []byte{'<', '>', '/', '!', '-', '?', '=', '"', '\'', '&', ';', '#', ' ', '\t', '\n', 0, 'a', 'b', 's', 'x', '0', 0xc3}
+
+// urlFrags: the URL fragment alphabet (C03, C20).
+var urlFrags = []string{
+	"http", "https", "javascript", "JaVa", "script", "data", "mailto", "vbscript",
+	":", "&#58;", "&colon;", "&Tab;", "\t", "\n", "\r", " ", "/", "//", "\\", "%3a", "%0a", "\x01", "\x00",
+	"@", "?", "#", ".", "a", "é", " ", " ", "%", "[", "]", "&#0;", "&#1;", "&#x1f;", "\x7f", "\x0b", "\x0c",
+	"e.x", "&amp;", "=", "&",
+}
+
+// urlBytes: byte alphabet for shallow byte-exhaustive URL strings.
+var urlBytes = []byte{'j', 's', ':', '/', ' ', '\t', '\n', '%', '\\', '#', '?', 0x01, 'a'}
+
+// htmlAttrEscape escapes a raw attribute value for embedding in double quotes
+// WITHOUT touching '&' (so character references in the alphabet stay references).
+func htmlAttrQuote(v string) string {
+	out := make([]byte, 0, len(v)+2)
+	out = append(out, '"')
+	for i := 0; i < len(v); i++ {
+		if v[i] == '"' {
+			out = append(out, "&quot;"...)
+		} else {
+			out = append(out, v[i])
+		}
+	}
+	return string(append(out, '"'))
+}
